@@ -164,6 +164,9 @@ def expectedMutationSites : List (String × String) := [
   ("code.truncate", "context_close"),
   ("debug_map.truncate", "context_close"),
   ("dict.swap_remove", "context_close"),
+  -- repair 0bda475: the results of a meta block are taken off the stack without a reverse-log entry;
+  -- the model function that accounts for it is `Session.emitResults` (Model/Session.lean)
+  ("data_stack.pop", "context_close"),
   ("dict.push", "dict_insert"),
   ("debug_map.[]=", "code_emit"),
   ("debug_map.push", "code_emit"),
@@ -216,14 +219,15 @@ def expectedMutationSites : List (String × String) := [
 theorem mutation_sites_match : src_mutation_sites = expectedMutationSites := rfl
 
 /-- all of them are in state.rs (the fields are private to that module) -/
-theorem mutation_sites_in_state_rs : src_mutation_files = List.replicate 65 "state.rs" := by decide +kernel
+theorem mutation_sites_in_state_rs : src_mutation_files = List.replicate 66 "state.rs" := by decide +kernel
 
 /-- the functions that may touch a run-time stack (`data_stack return_stack loops special heap`), in
-    source order: the unwinder of a failed build, the heap primitives, the run-time unwinder, the
+    source order: the unwinder of a failed build, the closing of a meta block (it takes the block's results off the
+    stack to re-emit them as literals: `Session.emitResults`), the heap primitives, the run-time unwinder, the
     reverse interpreter, the stack primitives `Prog` is built from (Model/Prog.lean) and
     `foreach_next` (logged since the C02 repair) -/
 def runtimePrimitives : List String := [
-  "build_unwind", "swap_cell_ref", "alloc_heap", "abort_run", "reverse_changes", "push_data",
+  "build_unwind", "context_close", "swap_cell_ref", "alloc_heap", "abort_run", "reverse_changes", "push_data",
   "pop_data", "swap_data", "rot_data", "push_return", "pop_return", "top_frame",
   "push_loop", "pop_loop", "loop_next", "push_special", "pop_special", "foreach_next"]
 
